@@ -10,7 +10,7 @@ from .qspace import SCHEMA
 
 NULL = -99
 ROWSET = [(1, 1), (1, 2), (2, 1), (NULL, 1), (2, NULL)]
-INTEGRATIONS = ['int1', 'int2']
+INTEGRATIONS = ['int1', 'int2', {'name': 'int3', 'type': 'data', 'class_type': 'api'}]
 
 
 def _rename(o, back):
